@@ -1,0 +1,12 @@
+//go:build verif
+// +build verif
+
+package onet
+
+import "go.dedis.ch/onet/v3/network"
+
+// VerifGetWSHostPort exposes getWSHostPort to the verification harness
+// (property C20); compiled only with the build tag "verif".
+func VerifGetWSHostPort(si *network.ServerIdentity, global bool) (string, error) {
+	return getWSHostPort(si, global)
+}
